@@ -1040,3 +1040,107 @@ func E2PenTracking(c *core.Ctx, r *core.Report, funcs []string) {
 	r.Count("E2.pen-cases", total)
 	r.Floor("E2.pen-cases", 12)
 }
+
+// E2CloseRewrite: a scan that rewrites a Close record with a fixed point stays inside one sub-path.
+func E2CloseRewrite(c *core.Ctx, r *core.Report) {
+	r.Rule("E2.close-rewrite", "a Close record carries the start point of its own sub-path. A loop that walks the commands and stores a loop-invariant point into the coordinates of a Close record (A.d[i+1], A.d[i+2] under cmd == CloseCmd) repairs the close of one particular sub-path, so it must leave the loop when it meets a MoveTo (a `cmd == MoveToCmd` branch ending in break or return); otherwise the Close of a later, unrelated sub-path is redirected to that point and no longer returns to its own start")
+	p := c.MustPkg("")
+	info := p.TypesInfo
+	n := 0
+	for _, fd := range core.AllFuncDecls(p) {
+		if fd.Body == nil {
+			continue
+		}
+		fname := "canvas." + core.FuncName(fd)
+		ord := 0
+		ast.Inspect(fd.Body, func(m ast.Node) bool {
+			loop, ok := m.(*ast.ForStmt)
+			if !ok {
+				return true
+			}
+			// variables assigned in the loop
+			assigned := map[types.Object]bool{}
+			ast.Inspect(loop, func(k ast.Node) bool {
+				if as, ok := k.(*ast.AssignStmt); ok {
+					for _, l := range as.Lhs {
+						if id, ok := l.(*ast.Ident); ok {
+							assigned[core.ObjOf(info, id)] = true
+						}
+					}
+				}
+				return true
+			})
+			isCmdEq := func(e ast.Expr, name string) bool {
+				be, ok := core.Unparen(e).(*ast.BinaryExpr)
+				if !ok || be.Op != token.EQL {
+					return false
+				}
+				return core.ConstName(info, be.Y) == name || core.ConstName(info, be.X) == name
+			}
+			var stores []*ast.AssignStmt
+			moveExit := false
+			var walk func(n ast.Node, inClose bool)
+			walk = func(nd ast.Node, inClose bool) {
+				switch x := nd.(type) {
+				case nil:
+				case *ast.BlockStmt:
+					for _, s := range x.List {
+						walk(s, inClose)
+					}
+				case *ast.IfStmt:
+					if isCmdEq(x.Cond, "MoveToCmd") && len(x.Body.List) > 0 {
+						switch last := x.Body.List[len(x.Body.List)-1].(type) {
+						case *ast.BranchStmt:
+							if last.Tok == token.BREAK {
+								moveExit = true
+							}
+						case *ast.ReturnStmt:
+							moveExit = true
+						}
+					}
+					walk(x.Body, inClose || isCmdEq(x.Cond, "CloseCmd"))
+					if x.Else != nil {
+						walk(x.Else, inClose)
+					}
+				case *ast.AssignStmt:
+					if !inClose || x.Tok != token.ASSIGN {
+						return
+					}
+					for i, l := range x.Lhs {
+						ie, _, ok := dataIndex(info, l)
+						if !ok || i >= len(x.Rhs) {
+							continue
+						}
+						if _, k, ok := linForm(info, ie.Index); ok && (k == 1 || k == 2) {
+							inv := true
+							ast.Inspect(x.Rhs[i], func(q ast.Node) bool {
+								if id, ok := q.(*ast.Ident); ok && assigned[core.ObjOf(info, id)] {
+									inv = false
+								}
+								return true
+							})
+							if inv {
+								stores = append(stores, x)
+							}
+						}
+					}
+				}
+			}
+			walk(loop.Body, false)
+			if len(stores) == 0 {
+				return true
+			}
+			n++
+			ord++
+			key := fmt.Sprintf("%s|close repair loop #%d stays inside the sub-path", fname, ord)
+			if moveExit {
+				r.OK("E2.close-rewrite", key, c.Pos(loop.Pos()), "leaves the loop at MoveTo")
+			} else {
+				r.Fail("E2.close-rewrite", key, c.Pos(stores[0].Pos()), fmt.Sprintf("`%s` writes a point fixed before the loop into a Close record, but the loop does not stop at the next MoveTo: the first Close of any later sub-path is redirected, and that sub-path no longer closes at its own start", c.Src(stores[0])))
+			}
+			return true
+		})
+	}
+	r.Count("E2.close-repair-loops", n)
+	r.Floor("E2.close-repair-loops", 1)
+}
